@@ -37,7 +37,12 @@ def main(a):
                 apply(d, v["file"], v["old"], v["new"], v.get("nth"))
             for (f, o, n) in v.get("extra", []):
                 apply(d, f, o, n)
-            pids = [v["pid"]] + v.get("also", [])
+            also = v.get("also", [])
+            if also == "ALL":
+                import seeded
+                also = [x for x in seeded.ALL if x != v["pid"]]
+                v = dict(v, also=also)
+            pids = [v["pid"]] + also
             res = mutate.run_checks(d, pids)
         except (ValueError, Exception) as e:
             print("%-34s %-5s FAIL (variant could not be applied: %s)" % (v["name"], v["kind"], e), flush=True)
